@@ -40,6 +40,34 @@ CHECKS = {
         ref="7 (C19)"),
 }
 
+CHECKS.update({
+    "C13": dict(
+        technique="TLA+ spec (Lazy: accessor semantics over Wire!ParseAll) + TLC model checking (MCLazy coherence) + TLC trace validation of recorded accessor/nested/Range events",
+        text="TLC checks the accessor semantics of the specification for coherence on every message of up to 2 (quick) / 3 (thorough) fields from a 13-field alphabet x 4 "
+             "definitions; the real lazyproto is run on seeded random value trees (all wire types, repeated, packed, nested to depth 2, 1 in 6 mutated) x random "
+             "definitions (flat, nested, negative tags, absent tags) x all 26 typed accessors (through FieldData and through the DecodeResult helpers) x paths x "
+             "NestedResult(s) x Range x {Decode function, Decoder with random options} and every event is judged by TLC against the reference parse of that result's input.",
+        note="trusted: TLC, protowire as the independent message writer, harness value conversion and error classification (errors.Is / errors.As)",
+        ref="7 (C13)"),
+    "C14": dict(
+        technique="TLA+ implementation-shaped model of the pooled results (LazyPool; sync.Pool.Get = any pooled or fresh object) model-checked by TLC for Isolation / NoPanic / "
+                  "Exclusive, with the as-found trunc as expected-violation config; random operation histories on the real Decoder validated by TLC (TraceLazy)",
+        text="TLC explores every choice the pool may make over 3 input shapes x buffer limits {none,0,1,2} (about 10^6 states per config) and shows that the modelled close/trunc "
+             "protocol keeps results isolated and never dereferences a nil closer (and that the pinned trunc did); the real code is driven through seeded random histories "
+             "(Decode, accessors, NestedResult(s), Range, Close; up to 3 live results; GC off so that reuse really happens; 30 option combinations) and every value is judged "
+             "against the reference parse of that result's own input, plus stability of values handed out in safe mode after Close and later decodes.",
+        note="trusted: TLC; pool reuse is observed, not forced (a run with zero reuses is inconclusive); histories follow the documented life cycle (no use after Close)",
+        ref="7 (C14), Appendix C"),
+    "C15": dict(
+        technique="TLA+ LazyPool model with G goroutines interleaved at pool.Get/pool.Put granularity model-checked by TLC (all interleavings, G=2; G=3 thorough) + per-goroutine "
+                  "value traces and hook-stamped ownership traces of the real Decoder validated by TLC; Go race detector as sensor",
+        text="the interleaving space is explored by TLC on the model (exclusive ownership, own values); the real Decoder is shared by G in {8,64} (thorough also 2,16) "
+             "goroutines with GOMAXPROCS in {1,2,4,16} and injected yields; each goroutine's values are judged against its own inputs, pool get/put events (atomic sequence "
+             "number taken inside the verif hook) are checked for exclusivity, and a race-detector report that involves csproto code is an unexplainable event.",
+        note="trusted: TLC, the Go race detector (-race build of the harness with no harness-side synchronisation between library calls), the verif hook placement (after pool.Get, before pool.Put)",
+        ref="7 (C15), 8"),
+})
+
 NOT_YET = {
     "C04": "check not built yet (generated-code corpus pipeline in progress)",
     "C05": "check not built yet (generated-code corpus pipeline in progress)",
